@@ -631,4 +631,9 @@ def rules(repo: Repo, tier: str) -> List[RuleResult]:
     return [c01.rule_typedlist(repo, "C06.typedlist", ["DomainParser.parse_types"], lookup_required=False), rule_conform(repo), rule_layering(repo),
             rule_range(repo, "C06.range", "Operator.apply"),
             rule_range(repo, "C06.range", "GroundedPrecondition.is_applicable"), rule_direction(repo), rule_closure(repo), rule_identity(repo), rule_parentlink(repo),
-            rule_walk(repo), rule_root(repo)]
+            rule_walk(repo), rule_root(repo), _c05()._rule_memo(repo, "C06.cache")]
+
+
+def _c05():
+    from . import c05
+    return c05
